@@ -25,6 +25,26 @@ thread_local! {
 /// no longer matches) instead of the old, plausible contents.
 pub static POISON: std::sync::atomic::AtomicBool = std::sync::atomic::AtomicBool::new(false);
 
+/// Page-aligned allocations that are alive in the whole process (count, bytes).  cranelift-jit takes
+/// the memory for machine code and read-only data from the global allocator with page alignment
+/// and nothing else in roto or the harness does, so this is the amount of JIT memory in use (C11).
+pub static PAGE_REGIONS: std::sync::atomic::AtomicI64 = std::sync::atomic::AtomicI64::new(0);
+pub static PAGE_BYTES: std::sync::atomic::AtomicI64 = std::sync::atomic::AtomicI64::new(0);
+
+pub fn page_regions() -> (i64, i64) {
+    use std::sync::atomic::Ordering::SeqCst;
+    (PAGE_REGIONS.load(SeqCst), PAGE_BYTES.load(SeqCst))
+}
+
+#[inline]
+fn page_account(l: &std::alloc::Layout, sign: i64) {
+    if l.align() >= 4096 {
+        use std::sync::atomic::Ordering::SeqCst;
+        PAGE_REGIONS.fetch_add(sign, SeqCst);
+        PAGE_BYTES.fetch_add(sign * l.size() as i64, SeqCst);
+    }
+}
+
 pub fn poison_freed_memory(on: bool) {
     POISON.store(on, std::sync::atomic::Ordering::SeqCst);
 }
@@ -32,6 +52,9 @@ pub fn poison_freed_memory(on: bool) {
 unsafe impl std::alloc::GlobalAlloc for CountingAlloc {
     unsafe fn alloc(&self, l: std::alloc::Layout) -> *mut u8 {
         let p = unsafe { std::alloc::System.alloc(l) };
+        if !p.is_null() {
+            page_account(&l, 1);
+        }
         let _ = ALLOC_ON.try_with(|on| {
             if on.get() {
                 let _ = ALLOC_NET.try_with(|n| n.set(n.get() + l.size() as i64));
@@ -41,6 +64,7 @@ unsafe impl std::alloc::GlobalAlloc for CountingAlloc {
         p
     }
     unsafe fn dealloc(&self, p: *mut u8, l: std::alloc::Layout) {
+        page_account(&l, -1);
         if POISON.load(std::sync::atomic::Ordering::Relaxed) {
             unsafe { std::ptr::write_bytes(p, 0xDE, l.size()) };
         }
@@ -67,6 +91,9 @@ unsafe impl std::alloc::GlobalAlloc for CountingAlloc {
         } else {
             unsafe { std::alloc::System.realloc(p, l, new) }
         };
+        if l.align() >= 4096 && !q.is_null() {
+            PAGE_BYTES.fetch_add(new as i64 - l.size() as i64, std::sync::atomic::Ordering::SeqCst);
+        }
         let _ = ALLOC_ON.try_with(|on| {
             if on.get() {
                 let _ = ALLOC_NET.try_with(|n| n.set(n.get() + new as i64 - l.size() as i64));
